@@ -348,6 +348,13 @@ static void elem_release(const MType *t, unsigned char *p) {
     if (t->cls == H5T_STRING && t->vlstr) { char *s = *(char **)p; if (s) free(s); *(char **)p = 0; }
     else if (t->cls == H5T_COMPOUND) for (int i = 0; i < t->nmem; i++) elem_release(t->mem[i].type, p + t->mem[i].offset);
 }
+/* before a write: release only the vlen strings of the stored element that the incoming (possibly partial compound) type overwrites */
+static void elem_release_for(const MType *src, const MType *dst, unsigned char *p) {
+    if (dst->cls == H5T_COMPOUND && src->cls == H5T_COMPOUND) {
+        for (int j = 0; j < dst->nmem; j++) for (int i = 0; i < src->nmem; i++)
+            if (!strcmp(src->mem[i].name, dst->mem[j].name)) elem_release_for(src->mem[i].type, dst->mem[j].type, p + dst->mem[j].offset);
+    } else elem_release(dst, p);
+}
 herr_t H5Tconvert(hid_t src, hid_t dst, size_t nelmts, void *buf, void *bkg, hid_t plist) {
     (void)bkg; (void)plist;
     MType *s = get_type(src), *d = get_type(dst);
